@@ -37,8 +37,17 @@ def scenarios(quick):
     return out
 
 
+def hedge_over_retry(stack):
+    ks = [d["k"] for d in stack]
+    return "hg" in ks and "retry" in ks[ks.index("hg"):]
+
+
 def violation_sig(info):
     st = "+".join(d["k"] for d in info["config"]["stack"])
+    if hedge_over_retry(info["config"]["stack"]):
+        # overlapping hedge attempts run the inner retry executor concurrently on unguarded state (known data race): its
+        # behaviour there is not a function of any interleaving of atomic steps
+        st = "hedge-over-retry"
     last = info["trace"][-1] if info["trace"] else {}
     return "timed:%s:%s" % (st, last.get("ev", "?"))
 
